@@ -863,6 +863,34 @@ func c17ParseOne(op string, r io.ReaderAt, sb *core.Superblock, addr uint64, arg
 			return nil, err
 		}
 		return []interface{}{}, nil
+	case "attrval": // ReadValue of the args[0]-th attribute (variable-length strings: one global heap collection per element)
+		h, err := core.ReadObjectHeader(r, addr, sb)
+		if err != nil {
+			return nil, err
+		}
+		if h.AttributesErr != nil {
+			return nil, h.AttributesErr
+		}
+		if len(args) < 1 || int(args[0]) >= len(h.Attributes) {
+			return nil, errors.New("no such attribute")
+		}
+		v, err := h.Attributes[args[0]].ReadValue()
+		if err != nil {
+			return nil, err
+		}
+		out := []interface{}{}
+		switch x := v.(type) {
+		case string:
+			out = append(out, hex.EncodeToString([]byte(x)))
+		case []string:
+			for _, e := range x {
+				out = append(out, hex.EncodeToString([]byte(e)))
+			}
+		case []interface{}:
+		default:
+			return nil, fmt.Errorf("harness: attrval is for string values, got %T", v)
+		}
+		return out, nil
 	case "raw": // raw element bytes of the dataset at addr through the library's layout dispatch
 		h, err := core.ReadObjectHeader(r, addr, sb)
 		if err != nil {
@@ -1155,6 +1183,15 @@ func init() {
 			if !seen[k] {
 				seen[k] = true
 				out = append(out, tgt{Op: op, Addr: a})
+			}
+			if op == "attrs" { // variable-length string attributes: ReadValue goes through the global heap
+				if h, err := core.ReadObjectHeader(f.Reader(), a, sb); err == nil && h.AttributesErr == nil {
+					for i, at := range h.Attributes {
+						if at.Datatype != nil && at.Dataspace != nil && at.Datatype.IsVariableString() {
+							out = append(out, tgt{Op: "attrval", Addr: a, Args: []uint64{uint64(i), at.Dataspace.TotalElements()}})
+						}
+					}
+				}
 			}
 		}
 		stab := func(addr uint64) {
